@@ -1650,11 +1650,15 @@ class SQLiteCompiler(compiler.SQLCompiler):
 
     def _on_conflict_target(self, clause, **kw):
         if clause.inferred_target_elements is not None:
+            element_kw = dict(kw)
+            element_kw.update(
+                include_table=False, use_schema=False, literal_execute=True
+            )
             target_text = "(%s)" % ", ".join(
                 (
                     self.preparer.quote(c)
                     if isinstance(c, str)
-                    else self.process(c, include_table=False, use_schema=False)
+                    else self.process(c, **element_kw)
                 )
                 for c in clause.inferred_target_elements
             )
